@@ -252,3 +252,33 @@ Proof.
   split; [vm_compute; reflexivity|]. split; [vm_compute; reflexivity|].
   apply stores_equivalent. apply state_ok_run. apply state_ok_init.
 Qed.
+
+(* The file store's (bucket, name) -> files mapping (GCS/FsPaths.v, tied to filestore.go by listing
+   what Add creates): different storable names of a bucket, and objects of different buckets, share
+   neither content file nor sidecar; a name ending in the sidecar extension is refused *)
+From Emu.GCS Require Import FsPaths FsPathsProofs.
+Theorem C09_files_apart : forall b n1 n2,
+  storable n1 = true -> storable n2 = true -> n1 <> n2 ->
+  forall f, In f [content_file b n1; sidecar_file b n1] -> In f [content_file b n2; sidecar_file b n2] -> False.
+Proof. exact files_apart. Qed.
+Print Assumptions C09_files_apart.
+
+Theorem C09_buckets_apart : forall b1 b2 n1 n2,
+  bucket_ok b1 = true -> bucket_ok b2 = true -> storable n1 = true -> storable n2 = true -> b1 <> b2 ->
+  forall f, In f [content_file b1 n1; sidecar_file b1 n1] -> In f [content_file b2 n2; sidecar_file b2 n2] -> False.
+Proof. exact buckets_apart. Qed.
+Print Assumptions C09_buckets_apart.
+
+Theorem C09_sidecar_names_refused : forall b n, add_files b (n ++ s_meta_ext) = None.
+Proof. exact sidecar_names_refused. Qed.
+Print Assumptions C09_sidecar_names_refused.
+
+Theorem C09_add_files_shape : forall b n fs,
+  add_files b n = Some fs -> fs = [content_file b n; sidecar_file b n] /\ storable n = true /\ bucket_ok b = true.
+Proof. exact add_files_shape. Qed.
+Print Assumptions C09_add_files_shape.
+
+Example C09_siblings_apart : forall b f,
+  In f [content_file b n_report; sidecar_file b n_report] ->
+  In f [content_file b (n_report ++ x_tmp); sidecar_file b (n_report ++ x_tmp)] -> False.
+Proof. exact siblings_apart. Qed.
